@@ -554,7 +554,7 @@ let run_case (toks : sx list) : string =
         let a = String.split_on_char ':' (String.sub s 1 (String.length s - 1)) in
         let slot () = nat_of_int (int_of_string (List.nth a 0)) and x () = z_of_int (int_of_string (List.nth a 1)) in
         match s.[0] with
-        | 'N' -> Some (M.TNew (slot (), x ())) | 'I' -> Some (M.TInit (slot (), x ())) | 'G' -> Some (M.TGet (slot ()))
+        | 'N' -> Some (M.TNew (slot (), x ())) | 'I' | 'J' -> Some (M.TInit (slot (), x ())) | 'G' -> Some (M.TGet (slot ()))
         | 'S' -> Some (M.TSet (slot (), x ())) | 'C' -> Some (M.TClear (slot ())) | _ -> None in
       let tl = List.mapi (fun i ops -> List.filter_map (fun o -> match parse o with Some op -> Some (nat_of_int i, op) | None -> None) ops) threads in
       (* round robin *)
